@@ -10,9 +10,10 @@ Techniques (DESIGN 2b), per rule -- rules emitted: R-C19-1, -2, -2b, -2c, -3, -4
 * T2 symbolic path enumeration (class SX): _Skeletonize.__init__ for R-C19-4 (last store to self.wn compared as text, regex for a
   bare `wn`), the three merge methods for R-C19-5 (guards compared as canonical texts, no solver) and R-C19-6 (ordered events
   recognised by regex on their text).
-* T1 AST pattern / text matches: the other _Skeletonize methods in R-C19-4 (no Name `wn`; return_copy forwarded); the feeding of the
-  exclusion lists in R-C19-5 (substrings requires() / controls() / sources()); all of R-C19-7 (top-level statements of __init__ in
-  index order with the literal text self.wn.options.time.duration -- a shape match, not a path rule).
+* T1 AST pattern / text matches: the other _Skeletonize methods in R-C19-4 (no Name `wn`; return_copy forwarded).
+* T3 (since session 3; init_rules): _Skeletonize.__init__ is run by the in-house interpreter (sa/concrete.py) on a mock model with two controls, a source,
+  user exclusion lists and a stand-in simulator that records the duration it is run with (both simulators): the exclusion lists of R-C19-5, the initial map
+  and stored head losses of R-C19-6 and the duration discipline of R-C19-7 are read off the constructed object.  Bounded to that fixture.
 """
 import ast
 import collections
@@ -1579,8 +1580,8 @@ def link_rules(repo, chk):
 
 
 # ======================================================================================================================
-# R-C19-4 .. R-C19-6 for skeletonize: path enumeration (sa/symx.py); R-C19-7 and the exclusion-list part of R-C19-5 are AST pattern
-# matches further below, not path rules.  In the path enumeration every value is the canonical text of what it was computed
+# R-C19-4 .. R-C19-6 for skeletonize: path enumeration (sa/symx.py); R-C19-7 and the constructor parts of R-C19-5 / -6 are decided further
+# below by an interpreted run of _Skeletonize.__init__ (init_rules).  In the path enumeration every value is the canonical text of what it was computed
 # from (locals, temporaries and inlined helpers disappear), every path carries the outcomes of the tests it passed and the
 # calls / stores it performed in execution order.
 # ======================================================================================================================
